@@ -205,11 +205,20 @@ def r3(ctx):
     fn = ctx.fn("network::Network::loopback")
     P = {pat_binds(p)[0][0]: pat_binds(p)[0][1] for p in fn["params"] if pat_binds(p)}
     st = top_stmts_of(fn["body"])
-    first = st[0]
+    from ..hir import let_table, cpretty
+    from .common import range_bounds
+    TT = let_table(fn["body"])
+    env0 = {}
+    for h_, init_ in TT.items():
+        try:
+            env0[h_] = e1.Norm(c, env0).norm(init_)
+        except ValueError:
+            pass
+    firsts = [s_ for s_ in st if s_.get("k") == "if" and not e4.outcomes(c, s_["th"], lambda n: False)]
+    first = firsts[0] if firsts else st[0]
     cond = pretty(strip(first["c"])) if first.get("k") == "if" else "?"
-    ok = cond == "(((outof > self.layers.len()) || (into >= self.layers.len())) || (outof < into))"
     okk = first.get("k") == "if" and not e4.outcomes(c, first["th"], lambda n: False)
-    N = e1.Norm(c)
+    N = e1.Norm(c, env0)
     parts_ok = False
     if first.get("k") == "if":
         disj = []
@@ -233,9 +242,8 @@ def r3(ctx):
     fl = [s for s in st if s.get("k") == "for"]
     okl = False
     if len(fl) == 1:
-        it = strip(fl[0]["iter"])
-        fs = dict((a, b) for a, b in it["fs"]) if it.get("k") == "struct" else {}
-        rng_ok = fs and e4.local_hid(fs["start"]) == P["into"] and e1.Norm(c).norm(fs["end"]) == Rat.atom("outof") + 1
+        rb = range_bounds(c, fl[0]["iter"], env0)
+        rng_ok = rb is not None and rb[0] == Rat.atom("into") and rb[1] == Rat.atom("outof") + 1
         kh = pat_binds(fl[0]["pat"])[0][1]
         m = [x for x in walk(fl[0]["body"]) if x.get("k") == "match"]
         arms_ok = True
@@ -245,9 +253,10 @@ def r3(ctx):
             kind = vp.split("::")[-1]
             if kind in ("Dense", "Convolution", "Deconvolution", "Maxpool"):
                 n += 1
-                inc = [x for x in walk(arm["body"]) if x.get("k") == "assignop" and x["op"].startswith("Add") and pretty(strip(x["l"])) == "%s.loops" % b[0][0] and pretty(strip(x["r"])) == "(iterations as _)"]
+                inc = [x for x in walk(arm["body"]) if x.get("k") == "assignop" and x["op"].startswith("Add") and pretty(strip(x["l"])) == "%s.loops" % b[0][0]
+                       and cpretty(x["r"], TT) == "(iterations as _)"]
                 arms_ok = arms_ok and len(inc) == 1
-        okl = bool(rng_ok) and arms_ok and n == 4 and bool(m) and pretty(strip(m[0]["scrut"])) == "self.layers[k]"
+        okl = bool(rng_ok) and arms_ok and n == 4 and bool(m) and cpretty(m[0]["scrut"], TT) == "self.layers[k]"
     ctx.check("R17.3", "loop-counts-raised", okl, "loop-count-update", c.loc(fn), "for k in into..outof+1: layer.loops += iterations")
     ins = [x for x in walk(fn["body"]) if x.get("k") == "mcall" and x["name"] == "insert"]
     ok = len(ins) == 1 and pretty(strip(ins[0]["args"][1])) == "(into, iterations, inskips)"
